@@ -69,7 +69,7 @@ contract(FD + '.byte_size', props=['C02', 'C11', 'C14'],
                   'result >= 0'],
          modifies=['self._count'])
 
-contract(FD + '.generate_bytes', props=['C02', 'C11'],
+contract(FD + '.generate_bytes', props=['C02', 'C11', 'C14'],
          requires=['len(self._bytes) == 0', COUNT_INV],
          raises={'SystemExit': f'({COUNT_REJECT})'
                                ' or (self._value is None and xfails(self._value_expr, self._label_scope))'},
@@ -104,7 +104,7 @@ contract(FU + '.byte_size', props=['C02', 'C11', 'C14'],
                   'value_of(self._fill_until_addr) == old(until_addr(self))'],
          modifies=['self._fill_until_addr'])
 
-contract(FU + '.generate_bytes', props=['C02', 'C11'],
+contract(FU + '.generate_bytes', props=['C02', 'C11', 'C14'],
          requires=['self._address is not None', 'len(self._bytes) == 0'],
          raises={'SystemExit': '(self._fill_until_addr is None and xfails(self._fill_until_addr_expr, self._label_scope))'
                                ' or (self._fill_value is None and xfails(self._fill_value_expr, self._label_scope))'},
